@@ -87,7 +87,8 @@ class C07(core.Prop):
     correspondence = "generated Driver subclasses on a real Router (histories, then getProperties) vs Driver.Model.run per device"
     uses_registry = True
     rule = ("deployments of 1-3 generated drivers (1-3 groups, five vector kinds, three rules, printf and sexagesimal formats, disabled groups / "
-            "vectors / elements, BLOBs set or unset, inheritance depth <= 3) x bounded histories of driver-side operations and client writes x "
+            "vectors / elements, BLOBs set or unset, inheritance depth <= 3; in a third of the cases a twin: a second driver built from the same "
+            "declarations under another name) x bounded histories of driver-side operations and client writes x "
             "a getProperties request with device in {each, none, unknown} and name in {existing, disabled, unknown, absent}; non-trivial = request "
             "that must elicit at least one definition; distinct by content")
     assumptions = ["no Read handlers in these deployments (C14 covers the event contract)",
